@@ -327,6 +327,9 @@ def run_case(case):
                     continue
                 demo, left = demography(m, dr, r)
                 ref = float(kg.log_density(s_, cs[r], demo, left))
+                if not np.isfinite(ref):
+                    C["reference_not_finite_not_judged"] = C.get("reference_not_finite_not_judged", 0) + 1  # (the density itself is beyond the range of a double)
+                    continue
                 C["reference_comparisons"] += 1
                 C["batched_heights_rows"] = C.get("batched_heights_rows", 0) + 1
                 if not np.isfinite(vals[r]) or abs(vals[r] - ref) > 1e-9 * max(1.0, abs(ref)):
@@ -371,6 +374,9 @@ def run_case(case):
         ref = float(kg.log_density(d["sampling"], d["coalescent"], demo, left))
         refs.append(ref)
         x = float(val[r, 0]) if r is not None else float(val[0])
+        if not np.isfinite(ref):
+            C["reference_not_finite_not_judged"] = C.get("reference_not_finite_not_judged", 0) + 1
+            continue
         C["reference_comparisons"] += 1
         if r is not None:
             C["batched_rows"] += 1
